@@ -55,7 +55,16 @@ def with_repaired(text, repaired):
 def main():
     ck = vlib.Check("C12", "model_checking")
     thorough = ck.tier == "thorough"
-    pool = cf.ThreadPoolExecutor(max_workers=10)
+    pool = cf.ThreadPoolExecutor(max_workers=12)
+
+    # the emission runs first: the replays wait for them, the design checks and negative configs run meanwhile
+    genA0 = pool.submit(vlib.tlc, MC, "RenderCtxRegistry_genA.cfg", workers=1, timeout=900)
+    genBf = pool.submit(vlib.tlc, MC, "RenderCtxRegistry_genB.cfg", workers=1, timeout=900)
+    genCf = pool.submit(vlib.tlc, MC, "RenderCtxRegistry_genC.cfg", workers=1, timeout=900)
+    # speculative: the predictions for the fully repaired forms (what the probe below usually detects), derived meanwhile
+    all_rep = sorted(TAG2REPAIR.values())
+    genA1 = pool.submit(vlib.tlc, MC, "gA.cfg", files={"gA.cfg": with_repaired(spec_file("RenderCtxRegistry_genA.cfg"), all_rep)},
+                        workers=1, timeout=900)
 
     # --- MC: design checks and negative configs, side by side ---------------------------------------
     f_mc = {n: pool.submit(vlib.tlc, MC, "RenderCtxRegistry_%s.cfg" % n, workers=4, timeout=900) for n in ("mcA", "mcB", "mcC")}
@@ -69,6 +78,8 @@ def main():
         "sliceKV as coded ([]KeyValue[CSSClass,bool] offers no rules)": ("nA4.cfg", with_repaired(negA.replace('"sharedKeys"', '"asCoded"'), ["KvCompName"])),
         "kvComp as coded (KeyValue[ComponentCSSClass,bool] named unknown-type)": ("nA5.cfg", with_repaired(negA.replace('"sharedKeys"', '"asCoded"'), ["SliceKVRules"])),
         "packageState (registry shared by all contexts)": ("nB1.cfg", negB),
+        "elseNotHoisted (scripts / css items in the else-arm of a conditional attribute are not hoisted)":
+            ("nA6.cfg", spec_file("RenderCtxRegistry_negCond.cfg")),
         "onceKeyedById (rendered once handles remembered by OnceHandle.id: zero-value handles collapse)":
             ("nC1.cfg", spec_file("RenderCtxRegistry_negC.cfg")),
     }
@@ -80,32 +91,9 @@ def main():
     }
     f_negx = {k: (pool.submit(vlib.tlc, MC, fn, files={fn: text}, workers=2, timeout=600), want) for k, (fn, text, want) in negs_exact.items()}
     f_neg = {k: pool.submit(vlib.tlc, MC, fn, files={fn: text}, workers=2, timeout=600) for k, (fn, text) in negs.items()}
-    genA0 = pool.submit(vlib.tlc, MC, "RenderCtxRegistry_genA.cfg", workers=1, timeout=900)
-    genBf = pool.submit(vlib.tlc, MC, "RenderCtxRegistry_genB.cfg", workers=1, timeout=900)
-    genCf = pool.submit(vlib.tlc, MC, "RenderCtxRegistry_genC.cfg", workers=1, timeout=900)
-    # speculative: the predictions for the fully repaired forms (what the probe below usually detects), derived meanwhile
-    all_rep = sorted(TAG2REPAIR.values())
-    genA1 = pool.submit(vlib.tlc, MC, "gA.cfg", files={"gA.cfg": with_repaired(spec_file("RenderCtxRegistry_genA.cfg"), all_rep)},
-                        workers=1, timeout=900)
-
     hd = vlib.harness_dir()
     vlib.templ_generate(os.path.join(hd, "c12"))
     binp = vlib.go_build("./c12", "c12")
-
-    for n, f in f_mc.items():
-        r = f.result()
-        if not r.ok:
-            raise vlib.InfraError("registry model %s does not satisfy its properties (%s): the model is wrong" % (n, r.violated))
-        ck.add_tlc(r, "RenderCtxRegistry_%s" % n)
-    for k, f in f_neg.items():
-        r = f.result()
-        if r.violated not in PROPS:
-            raise vlib.InfraError("negative config %s was not rejected (%s)" % (k, r.violated))
-    for k, (f, want) in f_negx.items():
-        r = f.result()
-        if r.violated != want:
-            raise vlib.InfraError("negative config %s was not rejected through %s (%s)" % (k, want, r.violated))
-    ck.set("negative_configs_rejected", sorted(f_neg) + sorted(f_negx))
 
     sc = vlib.scratch()
     reg = ["k1"]
@@ -122,8 +110,11 @@ def main():
         raise vlib.InfraError("edge emission A incomplete: %d edges for %d generated states" % (len(edgesA), gA.generated))
     pA = vlib.write_ndjson(os.path.join(sc, "edgesA0.ndjson"), edgesA)
     probe = vlib.Check("C12", "model_checking")
-    vlib.log("probe replay of A (%d edges)" % len(edgesA))
-    s0 = vlib.harness_results(probe, replay("edges", pA, "A0"))
+    # the probe needs only the edges that go through an as-coded container form; those leaving an initial state suffice
+    # (no history to re-establish) and show the difference between the as-coded and the repaired behaviour
+    probe_edges = [e for e in edgesA if e["from"]["init"] and e["lbl"].get("tags")]
+    vlib.log("probe replay of %d tagged edges of A" % len(probe_edges))
+    s0 = vlib.harness_results(probe, replay("edges", vlib.write_ndjson(os.path.join(sc, "probeA.ndjson"), probe_edges), "A0"))
     # a form counts as repaired in the code under test as soon as one edge that goes only through that form behaves
     # differently from the as-coded model (edges where both behaviours coincide say nothing).  A wrong guess cannot
     # hide anything: the step properties are evaluated on the real tokens, and real tokens that differ from the
@@ -197,10 +188,27 @@ def main():
         if ck._nviol == 0 and not ck.known_hit:
             raise vlib.InfraError("not every edge reached its source state in both concretisations: %d/%d, %d/%d" % (
                 sA["steps"], 2 * len(edgesA), sB["steps"], 2 * len(edgesB)))
-    need = {"RenderScriptComponent", "ElementWithOnAttrs", "ElementWithClasses", "ElementWithClassAndOn", "OnceWithBlock",
+    need = {"RenderScriptComponent", "ElementWithOnAttrs", "ElementWithClasses", "ElementWithClassAndOn", "ElementWithCondOn",
+            "ElementWithCondClass", "OnceWithBlock",
             "OnceWithComponent", "StylesheetRequest", "SetNonce"}
     if set(sA["actions"]) != need or set(sB["actions"]) != need:
         raise vlib.InfraError("use kinds exercised: %s / %s" % (sorted(sA["actions"]), sorted(sB["actions"])))
+
+    # the design checks and negative configs ran meanwhile
+    for n, f in f_mc.items():
+        r = f.result()
+        if not r.ok:
+            raise vlib.InfraError("registry model %s does not satisfy its properties (%s): the model is wrong" % (n, r.violated))
+        ck.add_tlc(r, "RenderCtxRegistry_%s" % n)
+    for k, f in f_neg.items():
+        r = f.result()
+        if r.violated not in PROPS:
+            raise vlib.InfraError("negative config %s was not rejected (%s)" % (k, r.violated))
+    for k, (f, want) in f_negx.items():
+        r = f.result()
+        if r.violated != want:
+            raise vlib.InfraError("negative config %s was not rejected through %s (%s)" % (k, want, r.violated))
+    ck.set("negative_configs_rejected", sorted(f_neg) + sorted(f_negx))
 
     sim = f_sim.result()
     if sim.violated:
